@@ -29,7 +29,7 @@ ASSUMPTIONS = [
     "file lists <= 5 (quick) / 7 (thorough) for the sort, <= 3 for matching, <= 4 for pack_files; longer lists are not covered",
     "sort_match uses ONE concrete 5-line sort file (comment, glob+flags, quoted plain name with an escaped quote, glob_no_path with blanks in the list, extreme priority) - every matching outcome of these lines over the nodes is explored, other texts are not; flags_decode covers all keyword subsets in fixed relative orders",
     "fault injection of get_line/get_path is off in sort_match (symbolic early exits defeat constant propagation of the line text); C17.match.fail_stop is therefore only checked on the fault-free path there. Fail-stop of these paths is C13's",
-    "block size 4096 (append: 256 in the quick tier, 4096 in the thorough tier); block index < 8 in bp_pcb_data (no inode growth)",
+    "block size 4096 (append: 64 in the quick tier, 4096 in the thorough tier - the code only compares sizes against max_block_size); block index < 8 in bp_pcb_data (no inode growth)",
     "the layout on disk follows the call order because the block writer only appends (C14) and blocks are written in submission order (C02); not re-proved here",
     "export table <= 8 slots (symbolic fill, capacity and contents); that every inode's reference is offered to the table (dir writer call sites) is C03's",
     "options parsing (-T, -e, -S), glob semantics of fnmatch, the image as decoded by an independent parser: outside",
@@ -95,10 +95,10 @@ HARNESSES = [
          cases=[dict(id="begin", defines={"OP": 0, "BS": 4096}, tier="quick"),
                 dict(id="end_cur1", defines={"OP": 1, "HAVE_CUR": 1, "BS": 4096}, tier="quick"),
                 dict(id="end_cur0", defines={"OP": 1, "HAVE_CUR": 0, "BS": 4096}, tier="quick"),
-                dict(id="append_cur1_bs256", defines={"OP": 2, "HAVE_CUR": 1, "BS": 256}, tier="quick",
-                     label="bounded(block size 256)"),
-                dict(id="append_cur0_bs256", defines={"OP": 2, "HAVE_CUR": 0, "BS": 256}, tier="quick",
-                     label="bounded(block size 256)"),
+                dict(id="append_cur1_bs64", defines={"OP": 2, "HAVE_CUR": 1, "BS": 64}, tier="quick",
+                     label="bounded(block size 64)", timeout=600),
+                dict(id="append_cur0_bs64", defines={"OP": 2, "HAVE_CUR": 0, "BS": 64}, tier="quick",
+                     label="bounded(block size 64)", timeout=600),
                 dict(id="append_cur1", defines={"OP": 2, "HAVE_CUR": 1, "BS": 4096}, tier="thorough", timeout=900),
                 dict(id="append_cur0", defines={"OP": 2, "HAVE_CUR": 0, "BS": 4096}, tier="thorough", timeout=900)]),
     dict(name="bp_pcb_data", file="bp_pcb_data.c", label="bounded(block size 4096, block index<8)", timeout=120,
